@@ -128,11 +128,19 @@ def gen_trace(seed, n_calls=45):
                 else:
                     a = rng.choice(ASSETS)
                     q = rng.choice([-3, -1, 1, 2])
+                    px = rng.randint(500, 50000)
+                    held = pr["hold"][p].get(a, {}).get("qty", 0)
+                    if held and rng.random() < 0.4:
+                        # a transaction that would close the holding exactly - valid, stamped before the position's own
+                        # clock, or (the asset being held, hence refused by the position) at a non-positive price
+                        q = -held
+                        if rng.random() < 0.3:
+                            px = rng.choice([0, -5000])
                     g = gross.get((p, a), 0)
                     if g + abs(q) > MAX_GROSS:
                         continue
                     gross[(p, a)] = g + abs(q)
-                    do(dict(op="pf_txn", pid=p, asset=a, qty=q, px=rng.randint(500, 50000), comm=rng.choice([0, 125, 999]), t=t))
+                    do(dict(op="pf_txn", pid=p, asset=a, qty=q, px=px, comm=rng.choice([0, 125, 999]), t=t))
     return dict(id=seed, t0=t0, quote=quotes, fee=fee, ev=[to_json_event(e, rig_quote) for e, rig_quote in _with_quotes(evs, quotes)])
 
 
